@@ -21,3 +21,103 @@ package core
 //@   loop 1 invariant mon(buf, q) == shdq_DQ
 //@   loop 1 invariant mon(buf, k) == len(s0) - len(s)
 //@   loop 1 decreases len(s)
+
+// ---------------------------------------------------------------- C12 semaphores
+//
+// Monitor (lock-invariant) rule: the invariant is assumed after every Lock
+// (with all guarded state havocked) and proved at every Unlock.  maxSize and
+// Formatter are written only by the constructor and are not guarded.
+
+//@ type core.ResourceSemaphore property C12
+//@   guarded_by mu : waiters, curSize, reserved
+//@   invariant @bounds 0 <= self.reserved && self.reserved <= self.maxSize && self.curSize <= self.maxSize
+//@   invariant @headblocked len(self.waiters) > 0 ==> self.waiters[0].amount > self.curSize - self.reserved
+//@   invariant @queue forall j :: 0 <= j && j < len(self.waiters) ==> 0 <= self.waiters[j].amount && self.waiters[j].amount <= self.maxSize && self.waiters[j].ready != nil && alloc(self.waiters[j].ready) && !closed(self.waiters[j].ready)
+//@   invariant @distinct forall i, j :: 0 <= i && i < j && j < len(self.waiters) ==> self.waiters[i].ready != self.waiters[j].ready
+
+//@ func core.ResourceSemaphore.runJobs property C12
+//@   opt lockdiscipline on
+//@   requires held(self.mu)
+//@   requires inv(self, bounds, queue, distinct)
+//@   ensures held(self.mu)
+//@   ensures @bounds inv(self, bounds)
+//@   ensures @headblocked inv(self, headblocked)
+//@   ensures @queue inv(self, queue)
+//@   ensures @distinct inv(self, distinct)
+//@   ensures self.curSize == old(self.curSize)
+//@   ensures self.reserved >= old(self.reserved)
+//@   loop 1 invariant 0 <= iter && iter <= len(old(self.waiters))
+//@   loop 1 invariant 0 <= self.reserved && self.reserved <= self.maxSize && self.reserved >= old(self.reserved)
+//@   loop 1 invariant forall j :: iter <= j && j < len(old(self.waiters)) ==> !closed(old(self.waiters)[j].ready)
+
+//@ func core.ResourceSemaphore.Acquire property C12
+//@   requires n >= 0
+//@   requires !held(self.mu)
+//@   ensures !held(self.mu)
+
+//@ func core.ResourceSemaphore.Release property C12
+//@   requires n >= 0
+//@   requires !held(self.mu)
+//@   ensures !held(self.mu)
+
+//@ func core.ResourceSemaphore.UpdateActual property C12
+//@   requires !held(self.mu)
+//@   ensures !held(self.mu)
+
+//@ func core.ResourceSemaphore.UpdateSize property C12
+//@   requires n <= self.maxSize
+//@   requires !held(self.mu)
+//@   ensures !held(self.mu)
+
+//@ func core.ResourceSemaphore.UpdateFreeUsed property C12
+//@   requires !held(self.mu)
+//@   ensures !held(self.mu)
+
+//@ func core.ResourceSemaphore.InUse property C12
+//@   requires !held(self.mu)
+//@   ensures !held(self.mu)
+//@ func core.ResourceSemaphore.Reserved property C12
+//@   requires !held(self.mu)
+//@   ensures !held(self.mu)
+//@ func core.ResourceSemaphore.Available property C12
+//@   requires !held(self.mu)
+//@   ensures !held(self.mu)
+//@ func core.ResourceSemaphore.CurrentSize property C12
+//@   requires !held(self.mu)
+//@   ensures !held(self.mu)
+//@ func core.ResourceSemaphore.QueueLength property C12
+//@   requires !held(self.mu)
+//@   ensures !held(self.mu)
+
+//@ type core.MaxJobsSemaphore property C12
+//@   guarded_by lock : running, Limit, cond:cond
+//@   invariant @limit self.Limit <= 0 || len(self.running) <= self.Limit
+//@   invariant @nonnil self.running != nil
+
+//@ func core.MaxJobsSemaphore.Acquire property C12
+//@   requires !held(self.lock)
+//@   ensures !held(self.lock)
+//@   loop 1 invariant held(self.lock)
+//@   loop 1 invariant inv(self)
+
+//@ func core.MaxJobsSemaphore.Release property C12
+//@   requires !held(self.lock)
+//@   ensures !held(self.lock)
+
+//@ func core.MaxJobsSemaphore.Clear property C12
+//@   requires !held(self.lock)
+//@   ensures !held(self.lock)
+
+//@ func core.MaxJobsSemaphore.Current property C12
+//@   requires !held(self.lock)
+//@   ensures !held(self.lock)
+
+//@ func core.MaxJobsSemaphore.FindDone property C12
+//@   requires !held(self.lock)
+//@   ensures !held(self.lock)
+//@   loop 1 invariant held(self.lock) && inv(self)
+//@   loop 2 invariant held(self.lock) && inv(self)
+
+// ---------------------------------------------------------------- metadata state (C02, C06; used by C12 call sites)
+
+//@ func core.Metadata.getState property C02
